@@ -29,7 +29,11 @@ def efun(x):
     Returns:
         float: x/[exp(x)-1]
     """
-    return x / (save_exp(x) - 1.0)
+    small = jnp.abs(x) < 1e-6
+    # Evaluate the quotient away from 0/0 (also keeps gradients finite) and use the
+    # first-order expansion 1 - x/2 in the immediate vicinity of x = 0.
+    x_safe = jnp.where(small, 1.0, x)
+    return jnp.where(small, 1.0 - x / 2.0, x_safe / (save_exp(x_safe) - 1.0))
 
 
 class Leak(Channel):
